@@ -1202,6 +1202,127 @@ fn pool_h2_followers(kv: &BTreeMap<String, String>) -> Vec<String> {
     })
 }
 
+/// C14, second clause, for an attempt that has not started yet: a request is created through the public
+/// `ConnectionPoolService` (its checkout holds a connector) and is abandoned before its first poll -
+/// `how=cancel`: dropped; `how=preempt`: another request's connection is released and handed back first, so the
+/// first poll is served by it.  With `cont=1` the abandoned attempt must complete in the background and its
+/// connection be in the pool afterwards (two overlapping requests then need no dial); with `cont=0` nothing is left.
+fn pool_bg_unpolled(kv: &BTreeMap<String, String>) -> Vec<String> {
+    use http_body_util::BodyExt as _;
+    use hyperdriver::bridge::io::TokioIo;
+    use hyperdriver::client::conn::protocol::auto::HttpConnectionBuilder;
+    use hyperdriver::client::conn::transport::duplex::DuplexTransport;
+    use hyperdriver::client::conn::transport::TransportExt as _;
+    use hyperdriver::client::ConnectionPoolService;
+    use hyperdriver::server::conn::Accept;
+    use hyperdriver::service::RequestExecutor;
+    use hyperdriver::Body;
+    use std::sync::atomic::{AtomicUsize, Ordering};
+    use std::sync::Arc;
+    use tower::Service as _;
+    let cont = kv.get("cont").map(|s| s == "1").unwrap_or(true);
+    let preempt = kv.get("how").map(|s| s == "preempt").unwrap_or(false);
+    let rt = tokio::runtime::Builder::new_current_thread().enable_all().build().unwrap();
+    rt.block_on(async move {
+        let (tx, mut incoming) = hyperdriver::stream::duplex::pair();
+        let accepted = Arc::new(AtomicUsize::new(0));
+        let hold = Arc::new(tokio::sync::Notify::new());
+        {
+            let accepted = accepted.clone();
+            let hold = hold.clone();
+            tokio::spawn(async move {
+                loop {
+                    let s = match std::future::poll_fn(|cx| std::pin::Pin::new(&mut incoming).poll_accept(cx)).await {
+                        Ok(s) => s,
+                        Err(_) => break,
+                    };
+                    accepted.fetch_add(1, Ordering::SeqCst);
+                    let hold = hold.clone();
+                    tokio::spawn(async move {
+                        let svc = hyper::service::service_fn(move |req: http::Request<hyper::body::Incoming>| {
+                            let hold = hold.clone();
+                            async move {
+                                if req.uri().path() == "/hold" {
+                                    let _ = tokio::time::timeout(std::time::Duration::from_secs(3), hold.notified()).await;
+                                }
+                                Ok::<_, std::convert::Infallible>(http::Response::new(Body::empty()))
+                            }
+                        });
+                        let _ = hyper::server::conn::http1::Builder::new().keep_alive(true).serve_connection(TokioIo::new(s), svc).await;
+                    });
+                }
+            });
+        }
+        let mut cfg = hyperdriver::client::PoolConfig::default();
+        cfg.idle_timeout = None;
+        cfg.continue_after_preemption = cont;
+        let mut svc: ConnectionPoolService<_, _, _, Body, hyperdriver::client::pool::UriKey> =
+            ConnectionPoolService::new(DuplexTransport::new(1024, tx).without_tls(), HttpConnectionBuilder::default(), RequestExecutor::new(), cfg);
+        let request = |path: &str| http::Request::get(format!("http://test{path}")).version(http::Version::HTTP_11).body(Body::empty()).unwrap();
+        let settle = || async {
+            for _ in 0..30 {
+                tokio::task::yield_now().await;
+            }
+            tokio::time::sleep(std::time::Duration::from_millis(50)).await;
+        };
+        let mut out = vec![];
+        let r0 = tokio::spawn(svc.call(request("/hold")));
+        settle().await;
+        // created (Pool::checkout has run: no idle connection, so it holds its own connector), not polled
+        let parked = svc.call(request("/"));
+        if !preempt {
+            drop(parked);
+            settle().await;
+            hold.notify_waiters();
+            match r0.await {
+                Ok(Ok(resp)) => {
+                    let _ = resp.into_body().collect().await;
+                }
+                _ => out.push("r0=err".into()),
+            }
+            settle().await;
+        } else {
+            hold.notify_waiters();
+            match r0.await {
+                Ok(Ok(resp)) => {
+                    let _ = resp.into_body().collect().await;
+                }
+                _ => out.push("r0=err".into()),
+            }
+            settle().await; // the hand-back task delivers connection 1 to the parked request's waiter
+            match tokio::spawn(parked).await {
+                Ok(Ok(resp)) => {
+                    out.push(format!("r1={}", resp.status().as_u16()));
+                    let _ = resp.into_body().collect().await;
+                }
+                _ => out.push("r1=err".into()),
+            }
+            settle().await;
+        }
+        settle().await;
+        let before = accepted.load(Ordering::SeqCst);
+        let a = tokio::spawn(svc.call(request("/hold")));
+        settle().await;
+        let b = tokio::spawn(svc.call(request("/hold")));
+        settle().await;
+        hold.notify_waiters();
+        for (n, h) in [("ra", a), ("rb", b)] {
+            match h.await {
+                Ok(Ok(resp)) => {
+                    out.push(format!("{n}={}", resp.status().as_u16()));
+                    let _ = resp.into_body().collect().await;
+                }
+                _ => out.push(format!("{n}=err")),
+            }
+        }
+        let extra = accepted.load(Ordering::SeqCst) - before;
+        out.push(format!("dials_before={before}"));
+        out.push(format!("extra_dials={extra}"));
+        out.push("result=ok".into());
+        out
+    })
+}
+
 /// C06: the pool key derived from a request (public `UriKey: TryFrom<&request::Parts>` + Display).
 fn urikey(kv: &BTreeMap<String, String>) -> Vec<String> {
     let mut parts = http::uri::Parts::default();
@@ -1598,6 +1719,7 @@ pub fn dispatch(family: &str, kv: &BTreeMap<String, String>) -> Vec<String> {
         "pool_closed_handback" => pool_closed_handback(kv),
         "pool_release" => pool_release(kv),
         "pool_h2_followers" => pool_h2_followers(kv),
+        "pool_bg_unpolled" => pool_bg_unpolled(kv),
         "pool_idle_limit" => pool_idle_limit(kv),
         "pool_idle_closed" => pool_idle_closed(kv),
         "pool_idle_expiry" => pool_idle_expiry(kv),
